@@ -152,9 +152,11 @@ class Run:
         ticks.discard(None)
         rank = {t: i for i, t in enumerate(sorted(ticks))}
         rank[None] = None
+        from ..core import object_state
+
         return (tuple(order),
                 tuple(sorted((k, (e[0], e[1], rank[e[2]])) for k, e in ent.items())),
-                usage, tuple(refs), tuple(sorted(self.held)),
+                usage, tuple(refs), tuple(sorted(self.held)), object_state(self.cache),
                 tuple(m.order),
                 tuple(sorted((k, (e[0], e[1], rank[e[2]], rank[e[3]])) for k, e in m.ent.items())),
                 tuple(sorted((k, rank[t]) for k, t in m.current.items())),
